@@ -16,12 +16,13 @@ FOCUS = {
     "nesting": "any way in which nesting depth makes parsing, loading, emitting or releasing crash or panic that the listed shapes/depths/stacks/APIs/options would not exercise — your choice. ",
 }
 props = {json.loads(l)["id"]: json.loads(l) for l in open("/verif/properties.jsonl")}
-tmpl = open("/verif/tools/seed_prompt_adversarial.tmpl").read()
+tmpl = open(os.path.join(os.path.dirname(os.path.abspath(__file__)), "seed_prompt_adversarial.tmpl")).read()
 os.makedirs("/tmp/seed", exist_ok=True)
 for arg in sys.argv[1:]:
     k, f = arg.split("=")
     wt = f"/tmp/seed/{k}"
-    subprocess.check_call(["git", "-C", "/repo", "worktree", "add", "-q", "--detach", wt, "HEAD"])
+    if not os.path.isdir(wt):
+        subprocess.check_call(["git", "-C", "/repo", "worktree", "add", "-q", "--detach", wt, "HEAD"])
     os.makedirs(wt + ".out", exist_ok=True)
     subprocess.check_call(["cp", "/repo/Cargo.lock", wt + "/Cargo.lock"])
     p = (tmpl.replace("@WT@", wt).replace("@OUT@", wt + ".out")
